@@ -17,7 +17,7 @@ from ..core import (call_name, const_value, dotted, names_loaded, params,
                     param_default, target_names, u, walk_expr, walk_local)
 from ..normal import IMPURE_NP, PURE_FUNCS, PURE_METHODS
 from ..patterns import (Cmp, assigns_to, calls_in, conjuncts, finfo,
-                        returns_of, subscript_stores)
+                        returns_of, shared, subscript_stores)
 from ..match import C, canon, distance, match
 from ..match import _NEUTRAL, _parse
 
@@ -66,6 +66,12 @@ EXPLANATION = (
     'not inline, an extra guard or a rebinding the rule cannot evaluate give analysis-incomplete, not a violation; (D2) the '
     '(start, stop, step) triple of slice.indices reaches range()/arange() in this order; (D3) an argument that spells out a '
     'constant default and data[(x,)] vs data[x] are one spelling. '
+    'Fourth wave: (D1) a temporary bound in several branches is read as each of its values (the offset added to a negative '
+    'column may be named once for two branches); every array the read path updates in place - by its own element stores or by '
+    'handing it to a helper whose effects summary writes the parameter (_handle_negative_indices) - is traced back through all '
+    'reaching definitions and cell-preserving steps to where its memory comes from: a broadcast / strided view '
+    '(np.broadcast_to, np.broadcast_arrays, as_strided) keeps several elements in one cell, so the per-row offset of negative '
+    'columns would be written over all rows (violation); behind a reshape / an unfollowed helper the rule answers incomplete. '
     'Equality with the list-of-rows model for every index expression is not '
     'decided.')
 
@@ -100,18 +106,11 @@ def _pure(e):
     return True
 
 
-def _temp_value(fi, name_node, strict=True):
-    """FuncInfo.temp_value with (a) itertools.* accepted as pure and (b)
-    `a, b = <pure call>` seen as a = <call>[0], b = <call>[1]."""
-    if not isinstance(name_node, ast.Name) or not isinstance(name_node.ctx, ast.Load):
-        return None
-    try:
-        defs = fi.defs_of_use(name_node)
-    except Exception:
-        return None
-    if len(defs) != 1:
-        return None
-    site = next(iter(defs))
+def _site_value(fi, name_node, site, strict=True):
+    """The value bound to the name by ONE of its reaching definitions, when
+    that definition is `name = <pure expression>` (or `a, b = <pure call>`,
+    seen as a = <call>[0], b = <call>[1]), the object is never mutated in
+    place and no operand is rebound / mutated between definition and use."""
     if site in ('PARAM', 'UNBOUND') or not isinstance(site, (ast.Assign, ast.AnnAssign)):
         return None
     v = fi.def_value(site, name_node.id)
@@ -141,6 +140,91 @@ def _temp_value(fi, name_node, strict=True):
     return v
 
 
+def _temp_value(fi, name_node, strict=True):
+    """FuncInfo.temp_value with (a) itertools.* accepted as pure and (b)
+    `a, b = <pure call>` seen as a = <call>[0], b = <call>[1]."""
+    if not isinstance(name_node, ast.Name) or not isinstance(name_node.ctx, ast.Load):
+        return None
+    try:
+        defs = fi.defs_of_use(name_node)
+    except Exception:
+        return None
+    if len(defs) != 1:
+        return None
+    return _site_value(fi, name_node, next(iter(defs)), strict)
+
+
+def _alternatives(fi, expr, strict=True, limit=8):
+    """The values an expression can denote when a temporary in it has SEVERAL
+    reaching definitions (one per branch: `if c: t = A else: t = B; use(t)`):
+    the list of expansions, one per definition, each name resolved once
+    (a phi of pure temporaries).  A name with a definition that is not a pure
+    temporary stays a name (in every alternative).  At most `limit`
+    alternatives; [expansion of expr] when nothing branches."""
+    outs = [expr]
+    for _ in range(4):
+        nxt, split = [], False
+        for e in outs:
+            x = _expand(fi, e, strict=strict)
+            cand = None
+            for n in ast.walk(x):
+                if not (isinstance(n, ast.Name) and isinstance(n.ctx, ast.Load)):
+                    continue
+                o = getattr(n, '_orig', n)      # only ORIGINAL nodes of the function have def-use information
+                try:
+                    defs = fi.defs_of_use(o)
+                except Exception:
+                    continue
+                if len(defs) < 2:
+                    continue
+                vals = [_site_value(fi, o, site, strict) for site in defs]
+                if all(v is not None for v in vals):
+                    cand = (n, sorted(vals, key=lambda v: (getattr(v, 'lineno', 0), getattr(v, 'col_offset', 0))))
+                    break
+            if cand is None:
+                nxt.append(x)
+                continue
+            split = True
+            n, vals = cand
+            for v in vals:
+                nxt.append(_replace_node(x, n, v))
+        outs = nxt
+        if not split or len(outs) > limit:
+            break
+    return outs[:limit] if len(outs) <= limit else [_expand(fi, expr, strict=strict)]
+
+
+_RANK = {'match': 0, 'far': 1, 'near': 2}
+
+
+def _replace_node(tree, node, value):
+    """tree with the ONE node `node` (identity) replaced by `value`; the other
+    sub-trees are the original nodes."""
+    if tree is node:
+        return value
+    if not isinstance(tree, ast.AST) or isinstance(tree, (ast.expr_context, ast.operator, ast.unaryop, ast.boolop, ast.cmpop)):
+        return tree
+    vals, changed = {}, False
+    for f in tree._fields:
+        val = getattr(tree, f, None)
+        if isinstance(val, list):
+            nv = [_replace_node(x, node, value) for x in val]
+            changed = changed or any(a is not b for a, b in zip(nv, val))
+        elif isinstance(val, ast.AST):
+            nv = _replace_node(val, node, value)
+            changed = changed or nv is not val
+        else:
+            nv = val
+        vals[f] = nv
+    if not changed:
+        return tree
+    new = type(tree)(**vals)
+    for a in ('lineno', 'col_offset', 'end_lineno', 'end_col_offset', '_from_np_array', '_canon_origin'):
+        if hasattr(tree, a):
+            setattr(new, a, getattr(tree, a))
+    return new
+
+
 def _expand(fi, expr, stop=(), strict=True, depth=8):
     """FuncInfo.expand over _temp_value (see there)."""
     def ex(e, d):
@@ -149,7 +233,9 @@ def _expand(fi, expr, stop=(), strict=True, depth=8):
                 v = _temp_value(fi, e, strict)
                 if v is not None:
                     return ex(v, d - 1)
-            return ast.copy_location(ast.Name(id=e.id, ctx=e.ctx), e)
+            cp = ast.copy_location(ast.Name(id=e.id, ctx=e.ctx), e)
+            cp._orig = getattr(e, '_orig', e)          # the node of the function (def-use queries: _alternatives)
+            return cp
         if not isinstance(e, ast.AST):
             return e
         if isinstance(e, (ast.expr_context, ast.operator, ast.unaryop, ast.boolop, ast.cmpop)):
@@ -1011,17 +1097,269 @@ def d1_negatives(ck, mod):
         else:
             I = None
             forms = ['%s[%s]' % (L, R)]
-        v = _classify(_expand(fi, add, strict=False), forms, scope)
-        if v[0] == 'match' and '_I' in v[1] and u(canon(v[1]['_I'])) != I:
-            v = ('near', 1, forms[0])
+        # the addend may be a temporary bound in several branches (`n = lengths[rows[neg]]` / `n = lengths[rows]`):
+        # every value it can hold must be an accepted offset
+        v = None
+        for alt in _alternatives(fi, add, strict=False):
+            va = _classify(alt, forms, scope)
+            if va[0] == 'match' and '_I' in va[1] and u(canon(va[1]['_I'])) != I:
+                va = ('near', 1, forms[0])
+            if v is None or _RANK[va[0]] > _RANK[v[0]]:          # one wrong value on one branch is a wrong offset
+                v = va
         ck.decide(v, rule, mod, s, F, u(s)[:200], 'negative column indices are offset by the length of THEIR row',
                   'negative columns must be offset by lengths[row] of the same positions')
     incs = _increments(fh, R)
     for s, t, add in incs:
-        v = _classify(_expand(fi, add, strict=False), ['len(%s)' % S, '%s.shape[0]' % S, '%s.size' % S, 'len(%s)' % L, '%s.shape[0]' % L, '%s.size' % L], scope)
+        v = None
+        for alt in _alternatives(fi, add, strict=False):
+            va = _classify(alt, ['len(%s)' % S, '%s.shape[0]' % S, '%s.size' % S, 'len(%s)' % L, '%s.shape[0]' % L, '%s.size' % L], scope)
+            if v is None or _RANK[va[0]] > _RANK[v[0]]:          # one wrong value on one branch is a wrong offset
+                v = va
         ck.decide(v, rule + '.rows', mod, s, F, u(s)[:200], 'negative row indices are offset by the number of rows',
                   'negative rows must be offset by the number of rows (len(starts))')
     ck.floor(rule, len(_increments(fh, Cn)), 1, 'offsets of negative column indices')
+
+
+# ---------------------------------------------------------------------------
+# D1: arrays that are updated in place have one memory cell per element
+
+# constructors whose result may hold SEVERAL elements in ONE memory cell (zero / overlapping strides)
+_OVERLAP_MAKERS = {'broadcast_to', 'broadcast_arrays', 'as_strided', 'sliding_window_view'}
+# steps that hand out the very same cells (never a copy)
+_SAME_CELLS_FUNCS = {'np.asarray', 'np.asanyarray', 'np.atleast_1d', 'np.atleast_2d', 'np.atleast_3d', 'np.squeeze', 'np.expand_dims',
+                     'np.transpose', 'np.swapaxes', 'np.moveaxis'}
+_SAME_CELLS_METHODS = {'view', 'transpose', 'swapaxes', 'squeeze'}
+# steps that return a view when the strides allow it and a copy otherwise
+_MAYBE_CELLS_FUNCS = {'np.ravel', 'np.reshape', 'np.ascontiguousarray', 'np.asfortranarray', 'np.require'}
+_MAYBE_CELLS_METHODS = {'reshape', 'ravel'}
+
+
+def _is_overlap_maker(call):
+    cn = call_name(call) or ''
+    if cn.split('.')[-1] in _OVERLAP_MAKERS and (cn.startswith(('np.', 'numpy.')) or '.' not in cn):
+        return True
+    if cn in ('np.meshgrid', 'numpy.meshgrid'):
+        return any(k.arg == 'copy' and const_value(k.value, None) is False for k in call.keywords)
+    return False
+
+
+class _Cells:
+    """Where the storage of an array expression comes from, followed backwards
+    through ALL reaching definitions (may-analysis over the def-use graph),
+    through steps that keep the cells (np.asarray, .T, basic slices, in-place
+    `x += v`, np.array(x, copy=False)) and through module-level helpers (their
+    return values, parameters bound to the arguments of the call).
+    Result: {tag: witness node}, tags
+        'overlap'  the value may be a broadcast / strided view (several
+                   elements share one cell) reaching the use through
+                   cell-preserving steps only;
+        'maybe'    the same behind a reshape / ravel (view or copy, decided
+                   at run time by the strides);
+        'unknown'  produced by a call the rule cannot follow.
+    No tag: parameters (the caller's own arrays), fresh results (np.array,
+    arithmetic, fancy indexing, comprehensions, any other numpy call)."""
+
+    def __init__(self, mod):
+        self.mod = mod
+
+    def of_name(self, fi, name, stmt, env, depth, seen):
+        out = {}
+        try:
+            defs = fi.rd.defs_at(stmt, name)
+        except Exception:
+            return {'unknown': stmt}
+        for site in defs:
+            key = (id(site) if not isinstance(site, str) else site, name, id(fi))
+            if key in seen:
+                continue
+            seen = seen | {key}
+            if site == 'PARAM':
+                if env is not None and name in env:
+                    cfi, arg, cstmt, cenv = env[name]
+                    out.update(self.of_expr(cfi, arg, cstmt, cenv, depth - 1, seen))
+                continue
+            if isinstance(site, str):
+                continue
+            if isinstance(site, ast.AugAssign):
+                if isinstance(site.target, ast.Name) and site.target.id == name:
+                    out.update(self.of_name(fi, name, site, env, depth, seen))      # x op= v keeps the cells of an ndarray
+                continue
+            if not isinstance(site, (ast.Assign, ast.AnnAssign)):
+                continue             # loop targets, with-items, imports: elements / other objects
+            v = fi.def_value(site, name)
+            if v is not None:
+                out.update(self.of_expr(fi, v, site, env, depth, seen))
+                continue
+            if isinstance(site, ast.Assign) and isinstance(site.value, ast.Call):
+                pos = None
+                for t in site.targets:
+                    if isinstance(t, (ast.Tuple, ast.List)):
+                        ps_ = [i for i, e in enumerate(t.elts) if isinstance(e, ast.Name) and e.id == name]
+                        if len(ps_) == 1 and not any(isinstance(e, ast.Starred) for e in t.elts):
+                            pos = ps_[0]
+                out.update(self.of_expr(fi, site.value, site, env, depth, seen, pos=pos))
+        return out
+
+    def _not_stretched(self, fi, call, stmt, pos):
+        """Result `pos` of np.broadcast_arrays(a0, a1, ...) has the shape of its own operand when every
+        OTHER operand holds one element: the statement sits under `aj.size == 1` for each j != pos."""
+        if call.keywords or any(isinstance(a, ast.Starred) for a in call.args) or pos >= len(call.args):
+            return False
+        ones = set()
+        for test, pol, node in _path_conditions(self.mod, stmt, fi.fn):
+            for a in conjuncts(test, pol) or []:
+                if not (isinstance(a, Cmp) and a.op is ast.Eq):
+                    continue
+                for x, k in ((a.lhs, a.rhs), (a.rhs, a.lhs)):
+                    if const_value(k, None) == 1 and isinstance(x, ast.Attribute) and x.attr == 'size' and isinstance(x.value, ast.Name) \
+                            and fi.rd.defs_at(node, x.value.id) == fi.rd.defs_at(stmt, x.value.id):
+                        ones.add(x.value.id)
+        return all(isinstance(a, ast.Name) and a.id in ones for j, a in enumerate(call.args) if j != pos)
+
+    def of_expr(self, fi, e, stmt, env, depth, seen, pos=None):
+        if depth <= 0:
+            return {'unknown': e}
+        rec = lambda x, pos=None: self.of_expr(fi, x, stmt, env, depth, seen, pos=pos)
+        if isinstance(e, ast.Name):
+            return self.of_name(fi, e.id, stmt, env, depth, seen)
+        if isinstance(e, ast.IfExp):
+            out = rec(e.body, pos)
+            out.update(rec(e.orelse, pos))
+            return out
+        if isinstance(e, (ast.Tuple, ast.List)) and pos is not None and pos < len(e.elts) and \
+                not any(isinstance(x, ast.Starred) for x in e.elts):
+            return rec(e.elts[pos])
+        if isinstance(e, ast.Subscript):
+            k = const_value(e.slice, None)
+            if isinstance(e.value, ast.Call) and isinstance(k, int) and not isinstance(k, bool):
+                return rec(e.value, k)                  # f(...)[k]: the k-th result
+            sl = e.slice
+            basic = isinstance(sl, ast.Slice) or (isinstance(sl, ast.Tuple) and sl.elts and all(
+                isinstance(x, ast.Slice) or const_value(x, 0) is None or u(x) == 'Ellipsis' for x in sl.elts)) or u(sl) == 'Ellipsis'
+            return rec(e.value) if basic else {}
+        if isinstance(e, ast.Attribute):
+            return rec(e.value) if e.attr == 'T' else {}
+        if not isinstance(e, ast.Call):
+            return {}
+        cn = call_name(e) or ''
+        if _is_overlap_maker(e):
+            if cn.split('.')[-1] == 'broadcast_arrays' and pos is not None and self._not_stretched(fi, e, stmt, pos):
+                return rec(e.args[pos])                 # broadcast against one-element operands only: its own cells
+            return {'overlap': e}
+        if getattr(e, '_from_np_array', False):
+            return {}                                   # np.array(name): a copy
+        if cn in ('np.array', 'numpy.array'):
+            cp = [k for k in e.keywords if k.arg == 'copy']
+            if cp and const_value(cp[0].value, None) is False and e.args:
+                return rec(e.args[0])
+            return {}
+        if cn in _SAME_CELLS_FUNCS and e.args:
+            return rec(e.args[0])
+        if cn in _MAYBE_CELLS_FUNCS and e.args:
+            inner = rec(e.args[0])
+            return {('maybe' if t == 'overlap' else t): w for t, w in inner.items()}
+        f = self.mod.functions.get(cn)
+        if f is not None and isinstance(e.func, ast.Name):
+            b = _bind_call(self.mod, e)
+            if b is None:
+                return {'unknown': e}
+            ffi = finfo(self.mod, f)
+            fenv = {p: (fi, a, stmt, env) for p, a in b.items()}
+            out = {}
+            for r in returns_of(f):
+                if r.value is not None:
+                    out.update(self.of_expr(ffi, r.value, r, fenv, depth - 1, seen, pos=pos))
+            return out
+        if isinstance(e.func, ast.Attribute) and not cn.startswith(('np.', 'numpy.', 'math.', 'itertools.')):
+            if e.func.attr in _SAME_CELLS_METHODS:
+                return rec(e.func.value)
+            if e.func.attr in _MAYBE_CELLS_METHODS:
+                inner = rec(e.func.value)
+                return {('maybe' if t == 'overlap' else t): w for t, w in inner.items()}
+            if isinstance(e.func.value, ast.Name) and e.func.value.id in ('self', 'cls'):
+                return {'unknown': e}
+            return {}                                   # .copy() / .astype() / reductions ...: fresh results
+        if isinstance(e.func, ast.Name) and e.func.id not in PURE_FUNCS and e.func.id not in _NEUTRAL:
+            return {'unknown': e}
+        return {}
+
+
+def d1_inplace_cells(ck, mod):
+    """The index conversion normalises negative indices IN PLACE, element by
+    element (`cols[neg] += lengths[rows[neg]]`): that is only the per-row
+    offset when every element of the updated array has its own memory cell.
+    A broadcast result (np.broadcast_to / np.broadcast_arrays / as_strided)
+    keeps all stretched entries in ONE cell (stride 0): every store lands in
+    it and all rows end up with the offset of the last one.  Every array
+    that the read path updates in place - by a store of its own or by handing
+    it to a helper that the effects summary says writes its parameter - is
+    traced back to where its cells come from."""
+    rule = 'C05.D1.row-bounds.inplace-cells'
+    _, ea = shared(ck.repo)
+    cells = _Cells(mod)
+    why = ('an array that is updated in place element by element must have one memory cell per element: the entries of a '
+           'broadcast / strided view share cells (np.broadcast_arrays / np.broadcast_to stretch with stride 0), so the per-row '
+           'offset of a negative index written for one row overwrites the value of every other row - all rows are read at the '
+           'column computed for the last row and an index outside one of the rows no longer raises; spread the value with a '
+           'copy (np.array([...]), np.repeat, np.full, .copy())')
+    n_args = 0
+    for q in ('_convert_from_2d', '_handle_negative_indices', '_convert_from_1d', '_get_iis_from_slices', '_get_iis_from_list',
+              'where', CLS + '.__getitem__'):
+        fn = mod.functions.get(q)
+        if fn is None:
+            continue
+        fi = finfo(mod, fn)
+        sites = []          # (statement, name, node to report, what)
+        seen_s = set()
+        for st in walk_local(fn):
+            # element stores `x[i] = v`, `x[i] op= v` and whole-array updates `x op= v` (in place for an ndarray)
+            tgts = st.targets if isinstance(st, ast.Assign) else ([st.target] if isinstance(st, ast.AugAssign) else [])
+            for t in tgts:
+                for t_ in (t.elts if isinstance(t, (ast.Tuple, ast.List)) else [t]):
+                    b_ = t_
+                    while isinstance(b_, ast.Subscript):
+                        b_ = b_.value
+                    if not isinstance(b_, ast.Name) or (b_ is t_ and not isinstance(st, ast.AugAssign)):
+                        continue
+                    if (id(st), b_.id) not in seen_s:
+                        seen_s.add((id(st), b_.id))
+                        sites.append((st, b_.id, st, ('in-place update of `%s`' if b_ is t_ else 'element store into `%s`') % b_.id))
+        for c in calls_in(fn):
+            cn = call_name(c) or ''
+            if cn not in mod.functions or not isinstance(c.func, ast.Name):
+                continue
+            muts = ea.mutated_params(mod.rel, cn)
+            b = _bind_call(mod, c) if muts else None
+            if not muts:
+                continue
+            if b is None:
+                ck.missing(rule, 'arguments of %s in %s not recognised (the callee writes %s in place)' % (u(c)[:80], q, ', '.join(sorted(muts))))
+                continue
+            for p_ in sorted(muts):
+                a = b.get(p_)
+                if a is None:
+                    continue
+                if q == '_convert_from_2d':
+                    n_args += 1
+                sites.append((fi.stmt(c), a, c, 'argument `%s` of %s, which %s updates in place' % (u(a)[:40], cn, cn)))
+        for st, what, node, desc in sites:
+            if st is None:
+                continue
+            if isinstance(what, str):
+                tags = cells.of_name(fi, what, st, None, 6, frozenset())
+            else:
+                tags = cells.of_expr(fi, what, st, None, 6, frozenset())
+            con = '%s: %s' % (q, desc)
+            if 'overlap' in tags:
+                w = tags['overlap']
+                ck.bad(rule, mod, node, q, '%s <- %s' % (desc, u(w)[:100]), why,
+                       'cells come from %s (line %s)' % (u(w)[:100], getattr(w, 'lineno', '?')))
+            elif 'maybe' in tags or 'unknown' in tags:
+                w = tags.get('maybe', tags.get('unknown'))
+                ck.missing(rule, '%s: cannot tell whether the cells are distinct (%s)' % (con, u(w)[:100]))
+            else:
+                ck.ok(rule, mod, node, con, 'the updated array is a parameter or a fresh array (one cell per element)')
+    ck.floor(rule, n_args, 2, 'index arrays handed by _convert_from_2d to the in-place normalisation of negative indices')
 
 
 # ---------------------------------------------------------------------------
@@ -2567,6 +2905,7 @@ def check(ck):
     d1_bounds(ck, mod)
     d1_call_sites(ck, mod)
     d1_negatives(ck, mod)
+    d1_inplace_cells(ck, mod)
     d2_slices(ck, mod)
     d3_dispatch(ck, mod)
     d3_row_count(ck, mod)
